@@ -20,7 +20,7 @@ fn groups_for(prop: &str, ctx: &Ctx) -> Vec<Box<dyn Group>> {
         "C14" => vec![Box::new(c14::Rules), Box::new(c14::NonceRewrite::new()), Box::new(c14::CspHeader), Box::new(c14::Chain)],
         "C01" => vec![Box::new(c01::PathOk), Box::new(c01::San), Box::new(c01::Read::new(ctx))],
         "C07" => vec![Box::new(c07::Request1)],
-        "C06" => vec![Box::new(c06::ListHeader), Box::new(c06::Negotiation::new())],
+        "C06" => vec![Box::new(c06::ListHeader), Box::new(c06::Negotiation::new()), Box::new(c06::Memo::new())],
         "C03" => vec![Box::new(c03::History), Box::new(c13::Decisions)],
         "C04" => vec![Box::new(c03::History)],
         "C05" => vec![Box::new(c05::Serve)],
